@@ -45,6 +45,19 @@ def specs(tier):
                  init=[['open', PR1, 'development/4.3'],
                        ['open', PR2, 'development/5.1'],
                        ['eval_pr', 1], ['eval_pr', 2]]),
+            # non-initial state: an earlier pull request went through the
+            # queue (empty queue branches are left behind), then a pull
+            # request that does not target the oldest branch is queued
+            spec('q-D3-after-merge', 'D3', None, None, depth=3,
+                 config={'layout': 'D3', 'queue': True, 'skip_queue': False,
+                         'options': BYPASS_REVIEW + ['bypass_build_status']},
+                 init=[['open', 'bugfix/TEST-0', 'development/4.3'],
+                       ['eval_pr', 1], ['ci_q_all', 'SUCCESSFUL'],
+                       ['eval_pr', 1],
+                       ['open', PR1, 'development/5.1'],
+                       ['open', PR2, 'development/10.0'],
+                       ['eval_pr', 4], ['eval_pr', 5]],
+                 statuses_int=[], statuses_q=['SUCCESSFUL', 'FAILED']),
             # a developer commits on an integration branch (3 targets)
             spec('skipq-D3-manual', 'D3', 'development/4.3', None, skip=True,
                  depth=4, statuses_q=['SUCCESSFUL'], manual=['commit'],
